@@ -81,17 +81,22 @@ def subject_text(case: Case, marker=True) -> str:
         attrs = ["#[doc = \"case:%06d\"]" % case.id] + attrs
     body = d.text(derive, attrs)
     lines.extend("        " + l for l in body.split("\n"))
+    if case.tags.get("nested"):
+        # adapter as a child module: private (vis = "") items are reachable from here
+        lines.append("        pub mod adapter {")
+        lines.append(adapter_text(case, "super::%s" % d.name))
+        lines.append("        }")
     lines.append("    }")
     return "\n".join(lines)
 
 
-def adapter_text(case: Case) -> str:
+def adapter_text(case: Case, epath=None) -> str:
     d, cfg = case.decl, case.cfg
     E = d.name
     n = len(d.variants)
     L = []
     A = L.append
-    A("    use self::subject::%s as E;" % E)
+    A("    use %s as E;" % (epath or ("self::subject::%s" % E)))
     A("    use monitor_core::{run_history, Op, Sink, VTable, Val, D};")
     A("    type R = %s;" % d.repr)
     A("    const N: usize = %d;" % n)
@@ -176,8 +181,12 @@ def adapter_text(case: Case) -> str:
 
 def case_module(case: Case) -> str:
     """contents of the file `k<id>.rs` (= module `k<id>` of the case crate)"""
+    if case.tags.get("nested"):
+        tail = "pub use self::subject::adapter::VT;"
+    else:
+        tail = adapter_text(case)
     return ("// case %06d  shape=%s context=%s\n#![allow(unused_imports, dead_code, unreachable_patterns, non_camel_case_types)]\n%s\n%s\n"
-            % (case.id, case.decl.shape, case.context, subject_text(case), adapter_text(case)))
+            % (case.id, case.decl.shape, case.context, subject_text(case), tail))
 
 
 def write_if_changed(path: str, text: str) -> bool:
